@@ -109,7 +109,9 @@ func cmdCheck(args []string) int {
 	writeLedger := fs.Bool("write-ledger", false, "record the proved obligations of this property in the ledger")
 	only := fs.String("only", "", "restrict to contracts whose key contains this")
 	scratch := fs.String("scratch", "", "write queries, replay files and evidence under this directory instead of -verif (self-tests on a copy of the repository)")
+	cache := fs.String("cache", "", "directory of already decided queries (self-test only; the registered checks never pass it)")
 	fs.Parse(args)
+	queryCache = *cache
 	work := *verif
 	if *scratch != "" {
 		work = *scratch
